@@ -1,8 +1,11 @@
 """C16 -- gene-level grouping yields each gene's own bins, each bin exactly once.
 
 Correspondence: CopyNumArray.by_gene / squash_genes, reports.do_genemetrics (with and
-without segments) and reports.do_breaks against the extracted Coq model
-(Model/Genes.v).  The direct oracle is computed here, independently of both, from
+without segments, all sex-adjustment options incl. the guessed sex and the PAR-aware X
+filter) and reports.do_breaks against the extracted Coq model (Model/Genes.v,
+Model/Reports.v): the COMPLETE output DataFrames (header, column order, every cell, row
+order) are compared, and by_gene of every table -- inside and outside the precondition --
+is compared with the closed form of Spec/Genes.v (position ranges).  The direct oracle is computed here, independently of both, from
 the property text: per chromosome every non-ignored gene owns the bins from its
 first to its last bin, all other bins form maximal 'Antitarget' stretches, and the
 report rows are the textbook weighted statistics (fractions.Fraction) of exactly
@@ -31,7 +34,22 @@ LOW_LOG2 = Fraction(-15)                   # "very low coverage": log2 < -20 - (
 # building the implementation's objects
 
 
-def make_cna(bins, index='default'):
+NOPROBES = ['chromosome', 'start', 'end', 'gene', 'log2', 'depth', 'weight']
+CNS_ORDER = ['chromosome', 'start', 'end', 'gene', 'log2', 'depth', 'probes', 'weight']
+
+
+def make_cna(bins, index='default', cols=None, extra=None):
+    """cols: the table's columns in order (core names of COLS and names of `extra` = {name: [values]})"""
+    cna = make_cna_core(bins, index)
+    if cols is None and not extra:
+        return cna
+    df = cna.data
+    for k, vals in (extra or {}).items():
+        df[k] = np.array([np.nan if v is None else float(v) for v in vals], dtype=float)
+    return cna.as_dataframe(df[list(cols)] if cols is not None else df)
+
+
+def make_cna_core(bins, index='default'):
     from cnvlib.cnary import CopyNumArray as CNA
     if index == 'filtered':
         # interleave junk rows and filter them out again: the surviving rows keep a holey index
@@ -121,19 +139,99 @@ def key(b):
     return (b[0], int(b[1]), int(b[2]), b[3])
 
 
-def x_shift(bins, haploid_x_ref, female):
+def par_tables():
+    from cnvlib import params
+    return params.PSEUDO_AUTSOMAL_REGIONS
+
+
+def in_par(build, keys, start, end):
+    tab = par_tables()[build.lower()]
+    return any(tab[k][0] <= start and end <= tab[k][1] for k in keys)
+
+
+def xy_labels(bins):
+    if not bins:
+        return '', ''
+    return ('chrX', 'chrY') if bins[0][0].startswith('chr') else ('X', 'Y')
+
+
+def x_shift(bins, haploid_x_ref, female, build=None):
     """log2 adjustment of the X chromosome: -1 for a female sample on a male (haploid X) reference,
-    +1 for a male sample on a female reference"""
+    +1 for a male sample on a female reference; with a genome build the bins inside PAR1/PAR2 of X stay as they are.
+    female None (sex could not be guessed: no X bins) is treated like male"""
     if not bins:
         return bins
-    xl = 'chrX' if bins[0][0].startswith('chr') else 'X'
+    xl = xy_labels(bins)[0]
     if female and haploid_x_ref:
         d = -1.0
     elif not female and not haploid_x_ref:
         d = 1.0
     else:
         return bins
-    return [(b[0], b[1], b[2], b[3], b[4] + d if b[0] == xl else b[4]) + tuple(b[5:]) for b in bins]
+    return [(b[0], b[1], b[2], b[3],
+             b[4] + d if (b[0] == xl and not (build and in_par(build, ('PAR1X', 'PAR2X'), b[1], b[2]))) else b[4])
+            + tuple(b[5:]) for b in bins]
+
+
+# ---- the contingency tables of Mood's median test that guess_xx hands to scipy (C15), with scipy's statistic ----
+
+
+def is_auto_name(name):
+    t = name[3:] if name.startswith('chr') else name
+    return len(t) > 0 and all(c in '0123456789' for c in t)
+
+
+def f_median(l):
+    t = sorted(l)
+    n = len(t)
+    return t[n // 2] if n % 2 else (t[n // 2 - 1] + t[n // 2]) / 2
+
+
+def mood_table(s1, s2):
+    gm = f_median(list(s1) + list(s2))
+    return [sum(1 for x in s1 if x > gm), sum(1 for x in s2 if x > gm),
+            sum(1 for x in s1 if x < gm), sum(1 for x in s2 if x < gm)]
+
+
+def mood_valid(t):
+    a1, a2, b1, b2 = t
+    return a1 + a2 != 0 and b1 + b2 != 0 and not (a1 == 0 and b1 == 0) and not (a2 == 0 and b2 == 0)
+
+
+_gstat_cache = {}
+
+
+def gstat_of_table(t):
+    k = tuple(t)
+    if k not in _gstat_cache:
+        from scipy.stats import chi2_contingency
+        _gstat_cache[k] = float(chi2_contingency(np.array([[t[0], t[1]], [t[2], t[3]]], dtype=np.int64),
+                                                 lambda_='log-likelihood', correction=True)[0])
+    return _gstat_cache[k]
+
+
+def sex_tables(rows, hap, build):
+    if not rows:
+        return []
+    xl, yl = xy_labels(rows)
+
+    def on(label, keys, r):
+        return r[0] == label and not (build is not None and in_par(build, keys, r[1], r[2]))
+    any_auto = any(is_auto_name(r[0]) for r in rows)
+    auto = [r[4] for r in rows if (not any_auto) or is_auto_name(r[0]) or
+            (build is not None and r[0] == xl and in_par(build, ('PAR1X', 'PAR2X'), r[1], r[2]))]
+    chrx = [r[4] for r in rows if on(xl, ('PAR1X', 'PAR2X'), r)]
+    chry = [r[4] for r in rows if on(yl, ('PAR1Y', 'PAR2Y'), r)]
+    out, shifts = [], []
+    if chrx:
+        shifts += [(chrx, t) for t in ((-1, 0) if hap else (0, 1))]
+    if chrx and chry:
+        shifts += [(chry, 3), (chry, 0)]
+    for vals, t in shifts:
+        tab = mood_table(auto, [v + t for v in vals])
+        if mood_valid(tab) and tab not in [o[0] for o in out]:
+            out.append([tab, gstat_of_table(tab)])
+    return out
 
 
 def fr(x):
@@ -173,29 +271,42 @@ def gene_rows(bins, skip_low):
     return out
 
 
-def expected_genemetrics(case):
-    bins = x_shift(case['bins'], case['haploid_x_ref'], case['female'])
+def expected_genemetrics(case, female=None, female_segs=None):
+    """the rows the property promises; female / female_segs: the sex used for the adjustment when it is guessed"""
+    if case['female'] is not None:
+        female = female_segs = case['female']
+    build = case.get('build')
+    bins = x_shift(case['bins'], case['haploid_x_ref'], female, build)
     th, mp, skip_low = fr(case['threshold']), case['min_probes'], case['skip_low']
     if not case.get('segments'):
         rows = [r for r in gene_rows(bins, skip_low)
                 if r['log2'] is not None and abs(r['log2']) >= th and r['probes'] >= mp]
         return rows
-    segs = x_shift(case['segments'], case['haploid_x_ref'], case['female'])
+    segs = x_shift(case['segments'], case['haploid_x_ref'], female_segs, build)
+    hw, hp = 'weight' in seg_cols(case), 'probes' in seg_cols(case)
     out = []
     for c, srows in chrom_blocks(segs):
         crows = [b for b in bins if b[0] == c]
         for s in srows:
             if not (abs(fr(s[4])) >= th):
                 continue
-            if mp and s[7] < mp:
+            if mp and hp and s[7] < mp:
                 continue
             inside = [b for b in crows if b[1] < s[2] and b[2] > s[1]]
             for r in gene_rows(inside, skip_low):
+                if mp and not hp and r['probes'] < mp:
+                    continue
                 r['log2'] = fr(s[4])
-                r['segment_weight'] = fr(s[5])
-                r['segment_probes'] = int(s[7])
+                if hw:
+                    r['segment_weight'] = fr(s[5])
+                if hp:
+                    r['segment_probes'] = int(s[7])
                 out.append(r)
     return out
+
+
+def seg_cols(case):
+    return case.get('scols') or COLS
 
 
 def expected_squash(bins, ignore, squash_antitarget):
@@ -246,38 +357,76 @@ def code_by_gene(cna, ignore):
     return out
 
 
+def pyval(v):
+    """a DataFrame cell as a plain Python value: NaN -> None, numpy numbers -> int / float"""
+    if v is None:
+        return None
+    if isinstance(v, str):
+        return v
+    if isinstance(v, (bool, np.bool_)):
+        return bool(v)
+    if isinstance(v, (int, np.integer)):
+        return int(v)
+    f = float(v)
+    return None if f != f else f
+
+
+def table_of(df):
+    return {'columns': [str(c) for c in df.columns], 'rows': [[pyval(v) for v in row] for row in df.itertuples(index=False)]}
+
+
+def seg_extra(case):
+    return case.get('sextra') or {}
+
+
 def code_genemetrics(case):
     from cnvlib import reports
-    cna = make_cna(case['bins'], case['index'])
+    cna = make_cna(case['bins'], case['index'], case.get('ccols'))
     kw = {}
     for k_case, k_code in (('threshold', 'threshold'), ('min_probes', 'min_probes'), ('skip_low', 'skip_low')):
         if not case.get('defaults'):
             kw[k_code] = case[k_case]
-    segs = make_cna(case['segments'], 'default') if case.get('segments') is not None else None
+    if case.get('build') is not None:
+        kw['diploid_parx_genome'] = case['build']
+    segs = None
+    if case.get('segments') is not None:
+        segs = make_cna(case['segments'], 'default', case.get('scols'), seg_extra(case))
+    guess = None
+    if case['female'] is None:
+        g = make_cna(case['bins'], case['index'], case.get('ccols'))
+        is_xy, stats = g.compare_sex_chromosomes(case['haploid_x_ref'], case.get('build'))
+        guess = [None if is_xy is None else (not bool(is_xy)), None if is_xy is None else float(stats['combined_score'])]
     try:
         t = reports.do_genemetrics(cna, segs, is_haploid_x_reference=case['haploid_x_ref'],
                                    is_sample_female=case['female'], **kw)
     except ZeroDivisionError:
         return Err('ZeroDivisionError')
-    rows = []
-    for r in t.itertuples(index=False):
-        d = {'gene': r.gene, 'chromosome': r.chromosome, 'start': int(r.start), 'end': int(r.end), 'log2': float(r.log2),
-             'probes': int(r.probes), 'weight': float(r.weight), 'depth': float(r.depth)}
-        if hasattr(r, 'segment_probes'):
-            d['segment_weight'] = float(r.segment_weight)
-            d['segment_probes'] = int(r.segment_probes)
-        rows.append(d)
-    return rows
+    out = table_of(t)
+    out['guess'] = guess
+    return out
 
 
-def code_squash(cna, ignore, squash_antitarget):
+def code_squash(case):
+    from cnvlib import descriptives
+    cna = make_cna(case['bins'], case['index'], case.get('ccols'))
     kw = {}
-    if ignore is not None:
-        kw['ignore'] = ignore
-    if squash_antitarget is not None:
-        kw['squash_antitarget'] = squash_antitarget
-    out = cna.squash_genes(**kw)
-    return [(r.chromosome, int(r.start), int(r.end), r.gene, int(r.probes)) for r in out]
+    if case['ignore'] is not None:
+        kw['ignore'] = case['ignore']
+    if case['squash_antitarget'] is not None:
+        kw['squash_antitarget'] = case['squash_antitarget']
+    if case.get('summary'):
+        kw['summary_func'] = SUMMARY[case['summary']]
+    return table_of(cna.squash_genes(**kw).data)
+
+
+def summary_value(name, vals):
+    """the value the library's summary function gives for a column's values"""
+    from cnvlib import descriptives
+    f = descriptives.biweight_location if not name else SUMMARY[name]
+    return float(f(pd.Series(np.array(vals, dtype=float))))
+
+
+SUMMARY = {'median': np.median, 'mean': np.mean, 'max': np.max}
 
 
 def code_breaks(case):
@@ -288,8 +437,7 @@ def code_breaks(case):
         t = reports.do_breaks(cna, segs)
     else:
         t = reports.do_breaks(cna, segs, case['min_probes'])
-    return [(r.gene, r.chromosome, int(r.location), int(r.probes_left), int(r.probes_right), float(r.change))
-            for r in t.itertuples(index=False)]
+    return table_of(t)
 
 
 def run_by_gene(case):
@@ -301,7 +449,7 @@ def run_by_gene(case):
 
 def run_squash(case):
     try:
-        return code_squash(make_cna(case['bins'], case['index']), case['ignore'], case['squash_antitarget'])
+        return code_squash(case)
     except Exception as e:      # noqa
         return Err(type(e).__name__ + ': ' + str(e)[:80])
 
@@ -365,7 +513,10 @@ def gen_values(rng, th, low=True):
     return l, w, d
 
 
-def gen_table(rng, th=0.25, nchrom=None, maxgenes=12, names_style=None, low=True, edge=False):
+PAR_EDGES = {'grch37': [60000, 2699520, 154931043, 155260560], 'grch38': [10000, 2781479, 155701382, 156030895]}
+
+
+def gen_table(rng, th=0.25, nchrom=None, maxgenes=12, names_style=None, low=True, edge=False, build=None, sexy=False):
     """bins of 1..5 chromosomes, 0..12 genes of 1..10 bins, interleaved Antitarget/-/./CGH bins anywhere incl.
     chromosome ends and single trailing bins; edge=True additionally breaks the precondition on purpose
     (comma names shared by two genes, interleaved genes, repeated names, empty names)"""
@@ -374,6 +525,13 @@ def gen_table(rng, th=0.25, nchrom=None, maxgenes=12, names_style=None, low=True
     if rng.random() < 0.3:
         rng.shuffle(chroms)
     k = nchrom or rng.choice([1, 1, 2, 2, 3, 4, 5])
+    if sexy:          # the sex chromosomes are wanted: an autosome, X and often Y first
+        k = max(k, 3)
+        maxgenes = max(maxgenes, 8)
+        auto = [c for c in chroms if c[-1] not in 'XY']
+        rng.shuffle(auto)
+        xy = [c for c in chroms if c[-1] == 'X'] + ([c for c in chroms if c[-1] == 'Y'] if rng.random() < 0.6 else [])
+        chroms = auto[:1] + xy + auto[1:]
     chroms = chroms[:k]
     ngenes = rng.choice([0, 1, 2, 3, rng.randint(0, maxgenes), rng.randint(0, maxgenes)])
     per = [0] * k
@@ -420,9 +578,20 @@ def gen_table(rng, th=0.25, nchrom=None, maxgenes=12, names_style=None, low=True
                 else:
                     names[p] = names[q]
         pos = rng.choice([0, 0, rng.randint(0, 5000)])
+        if build and c[-1] == 'X':
+            # bins before / inside / after PAR1 or PAR2 of X: start a little before one of the four PAR boundaries
+            pos = rng.choice(PAR_EDGES[build]) - rng.choice([0, 1, 150, 400, 900])
         for nm in names:
             ln = rng.randint(20, 300)
             l, w, d = gen_values(rng, th, low)
+            if sexy and rng.random() < 0.85:
+                sex, hap = sexy
+                if c[-1] == 'X':
+                    l = {('f', True): 1.0, ('f', False): 0.0, ('m', True): 0.0, ('m', False): -1.0}[(sex, hap)] + dy(rng, -0.3, 0.3, 64)
+                elif c[-1] == 'Y':
+                    l = (-4.0 if sex == 'f' else 0.0) + dy(rng, -0.3, 0.3, 64)
+                else:
+                    l = dy(rng, -0.3, 0.3, 64)
             bins.append((c, pos, pos + ln, nm, l, w, d, rng.choice([1, 1, 1, rng.randint(0, 9)])))
             pos += ln + rng.choice([0, 0, rng.randint(1, 400)])
     return bins
@@ -454,6 +623,34 @@ def gen_segments(rng, bins, th):
     if rng.random() < 0.06:
         segs.append(('chr9' if blocks and blocks[0][0].startswith('chr') else '9', 0, 1000, '-', 1.0, 1.0, 1.0, 5))
     return segs
+
+
+SEG_COLSETS = [
+    None,                                                                             # all eight, harness order
+    CNS_ORDER,                                                                        # .cns order
+    ['chromosome', 'start', 'end', 'gene', 'log2', 'cn', 'depth', 'probes', 'weight', 'baf'],       # call output
+    ['chromosome', 'start', 'end', 'gene', 'log2', 'probes', 'ci_lo', 'ci_hi'],       # no weight, no depth
+    ['chromosome', 'start', 'end', 'gene', 'log2', 'depth', 'weight', 'p_ttest'],     # no probes
+    ['chromosome', 'start', 'end', 'gene', 'log2'],                                   # bare
+]
+
+
+def gen_seg_columns(rng, segs):
+    """the segment table's columns (order, optional depth / weight / probes, extra numeric columns with some NaN)"""
+    scols = rng.choice(SEG_COLSETS)
+    if scols is None:
+        return None, None
+    extra = {}
+    for k in scols:
+        if k not in COLS:
+            extra[k] = [None if rng.random() < 0.2 else (float(rng.randint(0, 6)) if k == 'cn' else dy(rng, -2, 2, 16))
+                        for _ in segs]
+    return list(scols), extra
+
+
+CNA_COLSETS = [None, None, NOPROBES, NOPROBES, ['chromosome', 'start', 'end', 'gene', 'depth', 'log2', 'weight'],
+               ['gene', 'chromosome', 'start', 'end', 'weight', 'log2', 'depth', 'probes']]
+SQUASH_COLSETS = [None, None, None, NOPROBES, NOPROBES, CNS_ORDER, ['chromosome', 'start', 'end', 'gene', 'depth', 'log2', 'weight']]
 
 
 def gen_break_segments(rng, bins):
@@ -494,19 +691,53 @@ def names_table(chroms, th=0.25, vary=0):
     return bins
 
 
+def general_ranges(crows, ign):
+    """closed form of by_gene on ANY chromosome table (C16_by_gene_general): S = the non-ignored genes with first / last
+    position in order of first occurrence; before each gene the non-empty stretch from the end of the previous gene OF
+    THAT ORDER to its first bin as Antitarget, then the gene first..last; after the last gene the rest"""
+    spans = list(gene_spans(crows, ign).items())
+    out = []
+    for k in range(len(spans) + 1):
+        a = 0 if k == 0 else spans[k - 1][1][1] + 1
+        b = len(crows) if k == len(spans) else spans[k][1][0]
+        if a < b:
+            out.append((ANTITARGET, a, b))
+        if k < len(spans):
+            out.append((spans[k][0], spans[k][1][0], spans[k][1][1] + 1))
+    return out
+
+
 def check_by_gene(ck, cases, cls):
     """cases: dicts with bins, index, ignore (None = default)"""
     minputs = [[c['ignore'], mrows(c['bins'])] for c in cases]
     model = vlib.model_batch_parallel('c16_by_gene', minputs)
     codes = pmap(run_by_gene, cases)
-    for case, m, code in zip(cases, model, codes):
+    # the closed form of Spec/Genes.v, chromosome by chromosome
+    blocks_of = [chrom_blocks(c['bins']) for c in cases]
+    rinputs = [[c['ignore'], mrows(crows)] for c, blocks in zip(cases, blocks_of) for _, crows in blocks]
+    ranges = iter(vlib.model_batch_parallel('c16_by_gene_ranges', rinputs))
+    for case, m, code, blocks in zip(cases, model, codes, blocks_of):
         bins = case['bins']
         ign = tuple(IGNORED if case['ignore'] is None else case['ignore']) + ALIASES
-        blocks = chrom_blocks(bins)
         pre = all(precondition(crows, ign) for _, crows in blocks)
         ngenes = sum(len(gene_spans(crows, ign)) for _, crows in blocks)
         ck.count(['by_gene', case], nontrivial=pre and ngenes > 0, cls='%s:by_gene:%s' % (cls, 'pre' if pre else 'nopre'))
         mm = m if isinstance(m, Err) else [[g, [tuple(k) for k in ks]] for g, ks in m]
+        general, twice = [], False
+        for _, crows in blocks:
+            r = next(ranges)
+            if isinstance(r, Err):
+                raise RuntimeError('model by_gene_ranges failed: %r' % (r,))
+            rs = [(lab, a, b) for lab, a, b in r[0]]
+            if rs != general_ranges(crows, ign):
+                raise RuntimeError('closed form of by_gene: Coq spec %r, harness %r' % (rs, general_ranges(crows, ign)))
+            times = r[1]
+            if any(t < 1 for t in times) or (all(t == 1 for t in times) != precondition(crows, ign)):
+                raise RuntimeError('times yielded %r contradict C16_by_gene_general (precondition %s)' % (times, precondition(crows, ign)))
+            twice = twice or any(t > 1 for t in times)
+            general.extend([lab, [key(b) for b in crows[a:b_]]] for lab, a, b_ in rs)
+        if twice:
+            ck.cls('%s:by_gene:some-bin-yielded-twice' % cls)
         if pre:
             exp = []
             for c, crows in blocks:
@@ -515,7 +746,9 @@ def check_by_gene(ck, cases, cls):
                 ck.violation('by_gene does not yield each gene\'s bins first..last and the maximal Antitarget stretches, '
                              'each bin exactly once', case, code=code, expected=exp, clause='C16_partition')
                 continue
-        if code != mm:
+        if code != general:
+            ck.tie_break('by_gene differs from the closed form of C16_by_gene_general', case, code=code, model=general)
+        elif code != mm:
             ck.tie_break('model by_gene differs from the code', case, code=code, model=mm)
 
 
@@ -539,92 +772,182 @@ def cmp_rows(code, exp, exact_keys, float_keys):
     return ''
 
 
+def cmp_table(code, mcols, mrows_):
+    """the complete table: header (names and order), row count and order, every cell; '' when equal"""
+    if isinstance(code, Err):
+        return 'code raised %s' % code.msg
+    if code['columns'] != list(mcols):
+        return 'columns %r, model %r' % (code['columns'], list(mcols))
+    if len(code['rows']) != len(mrows_):
+        return 'row count %d, model %d' % (len(code['rows']), len(mrows_))
+    for i, (cr, mr) in enumerate(zip(code['rows'], mrows_)):
+        for c, cv, mv in zip(mcols, cr, mr):
+            if isinstance(mv, str) or isinstance(cv, str):
+                ok = cv == mv
+            elif isinstance(mv, int) and not isinstance(mv, bool):
+                ok = cv is not None and float(cv) == mv
+            else:
+                ok = vlib.close(None if cv is None else float(cv), mv)
+            if not ok:
+                return 'row %d: %s = %r, model %r' % (i, c, cv, mv)
+    return ''
+
+
+def dict_rows(tab):
+    return [dict(zip(tab['columns'], r)) for r in tab['rows']]
+
+
 GM_EXACT = ('gene', 'chromosome', 'start', 'end', 'probes', 'segment_probes')
 GM_FLOAT = ('log2', 'weight', 'depth', 'segment_weight')
 
 
-def grow_to_dict(r, with_seg):
-    d = {'gene': r[0], 'chromosome': r[1], 'start': r[2], 'end': r[3], 'log2': r[4], 'depth': r[5], 'weight': r[6],
-         'probes': r[7]}
-    if with_seg:
-        d['segment_weight'] = r[8]
-        d['segment_probes'] = r[9]
-    return d
+def gm_model_input(c, th, mp):
+    segs = None
+    if c.get('segments') is not None:
+        ex = seg_extra(c)
+        segs = [list(seg_cols(c)), [[list(t), [[k, ex[k][i]] for k in ex]] for i, t in enumerate(c['segments'])]]
+    gs = []
+    if c['female'] is None:
+        gs = sex_tables(c['bins'], c['haploid_x_ref'], c.get('build'))
+        if c.get('segments'):
+            gs = gs + [t for t in sex_tables(c['segments'], c['haploid_x_ref'], c.get('build')) if t not in gs]
+    return [list(c.get('ccols') or COLS), mrows(c['bins']), segs, th, mp, None if c.get('defaults') else c['skip_low'],
+            c['haploid_x_ref'], c['female'], c.get('build'), gs]
 
 
 def check_genemetrics(ck, cases, cls):
-    def minput(c, th, mp):
-        return [mrows(c['bins']), None if c.get('segments') is None else mrows(c['segments']),
-                th, mp, None if c.get('defaults') else c['skip_low'], c['haploid_x_ref'], c['female']]
-    model = vlib.model_batch_parallel('c16_genemetrics', [
-        minput(c, None if c.get('defaults') else c['threshold'], None if c.get('defaults') else c['min_probes']) for c in cases])
-    allrows = vlib.model_batch_parallel('c16_genemetrics', [minput(c, 0, 0) for c in cases])
+    model = vlib.model_batch_parallel('c16_genemetrics_full', [
+        gm_model_input(c, None if c.get('defaults') else c['threshold'], None if c.get('defaults') else c['min_probes'])
+        for c in cases])
+    nosegs = [i for i, c in enumerate(cases) if not c.get('segments')]
+    ung = vlib.model_batch_parallel('c16_genemetrics_full', [gm_model_input(cases[i], 0, 0) for i in nosegs])
+    ungated = dict(zip(nosegs, ung))
     codes = pmap(run_genemetrics, cases)
-    for case, m, ungated, code in zip(cases, model, allrows, codes):
+    for i, (case, m, code) in enumerate(zip(cases, model, codes)):
         bins = case['bins']
         with_seg = bool(case.get('segments'))
         ign = IGNORED + ALIASES
         blocks = chrom_blocks(bins)
         pre = all(precondition(crows, ign) for _, crows in blocks)
-        sorted_ok = all(crows[i][2] <= crows[i + 1][1] for _, crows in blocks for i in range(len(crows) - 1))
+        sorted_ok = all(crows[j][2] <= crows[j + 1][1] for _, crows in blocks for j in range(len(crows) - 1))
         zero_w = any(r['depth'] is None for r in gene_rows(bins, False))
-        exp = expected_genemetrics(case)
-        ck.count(['genemetrics', case], nontrivial=pre and len(exp) > 0,
-                 cls='%s:genemetrics:%s:%s' % (cls, 'seg' if with_seg else 'gene', 'pre' if pre else 'nopre'))
-        if isinstance(m, Err) or isinstance(ungated, Err):
+        guessed = case['female'] is None
+        opt = '%s%s%s' % ('seg' if with_seg else 'gene', ':build' if case.get('build') else '', ':guess' if guessed else '')
+        if isinstance(m, Err) and m.msg not in ('ZeroDivisionError',):
             raise RuntimeError('model genemetrics failed: %r' % (m,))
-        mm = [grow_to_dict(r, with_seg) for r in m]
+        if isinstance(m, Err):
+            ck.count(['genemetrics', case], nontrivial=False, cls='%s:genemetrics:%s:zero-weight-gene' % (cls, opt))
+            if not (isinstance(code, Err) and code.msg.startswith('ZeroDivisionError')):
+                ck.tie_break('model do_genemetrics raises ZeroDivisionError (all-zero-weight gene), the code does not', case,
+                             code=code, model=m.msg)
+            continue
+        mcols, mrows_, mguess = m
+        female = case['female'] if not guessed else mguess
+        skip_oracle = guessed and mguess is None and with_seg      # the segments are then adjusted by their own guess
+        exp = [] if skip_oracle else expected_genemetrics(case, female, female)
+        ck.count(['genemetrics', case], nontrivial=pre and len(exp) > 0,
+                 cls='%s:genemetrics:%s:%s' % (cls, opt, 'pre' if pre else 'nopre'))
+        if guessed and not isinstance(code, Err) and code['guess'][0] != mguess:
+            sc = code['guess'][1]
+            if sc is not None and abs(sc - 1.0) < 1e-6:
+                ck.float_ambiguous += 1
+                ck.cls('%s:genemetrics:float-ambiguous-guess' % cls)
+            else:
+                ck.tie_break('guessed sex differs: code %r, model %r' % (code['guess'], mguess), case, code=code, model=mguess)
+            continue
         # decisions taken on a rounded mean within 1e-7 of the threshold are not compared (DESIGN 2)
         th = fr(case['threshold'])
         # (a mean exactly on the threshold is compared only when every float operation of the code is exact: threshold
         # and all log2 are multiples of 1/64, weights are multiples of 1/16 by construction)
         exact_ok = (th * 64).denominator == 1 and all((fr(b[4]) * 64).denominator == 1 for b in bins)
-        if not with_seg and any(r[4] is not None and abs(abs(r[4]) - th) < Fraction(1, 10 ** 7)
-                                and not (exact_ok and abs(r[4]) == th) for r in ungated):
-            ck.float_ambiguous += 1
-            ck.cls('%s:genemetrics:float-ambiguous' % cls)
-            continue
+        if not with_seg:
+            u = ungated[i]
+            if isinstance(u, Err):
+                raise RuntimeError('model genemetrics (ungated) failed: %r' % (u,))
+            li = u[0].index('log2') if 'log2' in u[0] else None
+            if li is not None and any(r[li] is not None and abs(abs(r[li]) - th) < Fraction(1, 10 ** 7)
+                                      and not (exact_ok and abs(r[li]) == th) for r in u[1]):
+                ck.float_ambiguous += 1
+                ck.cls('%s:genemetrics:float-ambiguous' % cls)
+                continue
         if isinstance(code, Err):
             if zero_w and code.msg.startswith('ZeroDivisionError'):
-                ck.cls('%s:genemetrics:zero-weight-gene-raises' % cls)
-                continue        # weight-averaged depth of an all-zero-weight gene is undefined: outside the claim
+                ck.tie_break('the code raises ZeroDivisionError, the model does not', case, code=code, model=[mcols, mrows_])
+                continue
             ck.violation('do_genemetrics raised ' + code.msg, case, code=code, expected=exp, clause='C16_genemetrics')
             continue
-        if pre and (sorted_ok or not with_seg):
-            why = cmp_rows(code, exp, GM_EXACT, GM_FLOAT)
+        if pre and (sorted_ok or not with_seg) and not skip_oracle:
+            why = cmp_rows(dict_rows(code), exp, GM_EXACT, GM_FLOAT)
             if why:
                 ck.violation('genemetrics rows are not the statistics of each reported gene\'s own bins: ' + why, case,
                              code=code, expected=exp, clause='C16_genemetrics')
                 continue
-        why = cmp_rows(code, mm, GM_EXACT, GM_FLOAT)
+        why = cmp_table(code, mcols, mrows_)
         if why:
-            ck.tie_break('model do_genemetrics differs from the code: ' + why, case, code=code, model=mm)
+            ck.tie_break('model do_genemetrics (complete table) differs from the code: ' + why, case, code=code,
+                         model=[mcols, mrows_])
+
+
+def squash_est_table(case, ign):
+    """the summary function's value on every column of every group of two or more bins (closed form of by_gene)"""
+    seen, out = set(), []
+    for _, crows in chrom_blocks(case['bins']):
+        for lab, a, b in general_ranges(crows, ign):
+            if b - a < 2:
+                continue
+            for k in (4, 6, 5):
+                vals = [crows[j][k] for j in range(a, b)]
+                if tuple(vals) in seen:
+                    continue
+                seen.add(tuple(vals))
+                v = summary_value(case.get('summary'), vals)
+                if not (min(vals) - 1e-12 <= v <= max(vals) + 1e-12):
+                    raise RuntimeError('summary function %r leaves [min, max] on %r: %r' % (case.get('summary'), vals, v))
+                out.append([vals, v])
+    return out
 
 
 def check_squash(ck, cases, cls):
-    model = vlib.model_batch_parallel('c16_squash', [[c['ignore'], c['squash_antitarget'], mrows(c['bins'])] for c in cases])
+    igns = [tuple(IGNORED if c['ignore'] is None else c['ignore']) + ALIASES for c in cases]
+    model = vlib.model_batch_parallel('c16_squash_full', [
+        [list(c.get('ccols') or COLS), c['ignore'], c['squash_antitarget'], mrows(c['bins']), squash_est_table(c, ign)]
+        for c, ign in zip(cases, igns)])
     codes = pmap(run_squash, cases)
-    for case, m, code in zip(cases, model, codes):
+    for case, m, code, ign in zip(cases, model, codes, igns):
         bins = case['bins']
-        ign = tuple(IGNORED if case['ignore'] is None else case['ignore']) + ALIASES
+        ccols = list(case.get('ccols') or COLS)
         blocks = chrom_blocks(bins)
         pre = all(precondition(crows, ign) for _, crows in blocks)
         ngenes = sum(len(gene_spans(crows, ign)) for _, crows in blocks)
-        ck.count(['squash', case], nontrivial=pre and ngenes > 0, cls='%s:squash:%s' % (cls, 'pre' if pre else 'nopre'))
-        mm = m if isinstance(m, Err) else [tuple(r) for r in m]
+        canonical = ccols in (COLS, NOPROBES)
+        ck.count(['squash', case], nontrivial=pre and ngenes > 0,
+                 cls='%s:squash:%s%s' % (cls, 'pre' if pre else 'nopre', '' if canonical else ':permuted-columns'))
+        if isinstance(m, Err):
+            raise RuntimeError('model squash failed: %r' % (m,))
         if pre:
             exp = expected_squash(bins, IGNORED if case['ignore'] is None else case['ignore'], bool(case['squash_antitarget']))
-            if code != exp:
+            bad = isinstance(code, Err)
+            if not bad:
+                rows = dict_rows(code)
+                got = [(r['chromosome'], r['start'], r['end'], r['gene']) for r in rows]
+                bad = got != [e[:4] for e in exp]
+                if not bad and canonical and 'probes' in ccols:
+                    bad = [r['probes'] for r in rows] != [e[4] for e in exp]
+            if bad:
                 ck.violation('squash_genes does not return one row per gene spanning its first to last bin', case,
                              code=code, expected=exp, clause='C16_squash')
                 continue
-        if code != mm:
-            ck.tie_break('model squash_genes differs from the code', case, code=code, model=mm)
+        why = cmp_table(code, m[0], m[1])
+        if why:
+            ck.tie_break('model squash_genes (complete table) differs from the code: ' + why, case, code=code, model=m)
+
+
+BREAK_COLS = ['gene', 'chromosome', 'location', 'change', 'probes_left', 'probes_right']
 
 
 def check_breaks(ck, cases, cls):
-    model = vlib.model_batch_parallel('c16_breaks', [[mrows(c['bins']), mrows(c['segments']),
-                                                      None if c.get('defaults') else c['min_probes']] for c in cases])
+    model = vlib.model_batch_parallel('c16_breaks_table', [[mrows(c['bins']), mrows(c['segments']),
+                                                            None if c.get('defaults') else c['min_probes']] for c in cases])
     codes = pmap(run_breaks, cases)
     for case, m, code in zip(cases, model, codes):
         bins, segs, mp = case['bins'], case['segments'], case['min_probes']
@@ -632,19 +955,19 @@ def check_breaks(ck, cases, cls):
         ck.count(['breaks', case], nontrivial=len(exp) > 0, cls='%s:breaks:mp%s' % (cls, 'ge1' if mp >= 1 else '0'))
         if isinstance(m, Err):
             raise RuntimeError('model breaks failed: %r' % (m,))
-        mm = [(r[0], r[1], r[2], r[4], r[5], r[3]) for r in m]
         if mp >= 1:
-            bad = isinstance(code, Err)
+            bad = isinstance(code, Err) or code['columns'] != BREAK_COLS
             if not bad:
-                a = sorted((r[:5], fr(r[5])) for r in code)
+                a = sorted(((r[0], r[1], r[2], r[4], r[5]), fr(r[3])) for r in code['rows'])
                 b = sorted((r[:5], r[5]) for r in exp)
                 bad = a != b
             if bad:
                 ck.violation('breaks does not list exactly the genes with >= min_probes bins on each side of a segment '
                              'boundary', case, code=code, expected=exp, clause='C16_breaks')
                 continue
-        if isinstance(code, Err) or [(r[:5], fr(r[5])) for r in code] != [(r[:5], r[5]) for r in mm]:
-            ck.tie_break('model do_breaks differs from the code', case, code=code, model=mm)
+        why = cmp_table(code, m[0], m[1])
+        if why:
+            ck.tie_break('model do_breaks (complete table, row order) differs from the code: ' + why, case, code=code, model=m)
 
 
 def check_gene_map(ck, cases, cls):
@@ -708,13 +1031,19 @@ def corpus_cases():
 
 def gm_case(bins, index, rng=None, th=0.25, segments=None, **kw):
     c = {'bins': bins, 'index': index, 'threshold': th, 'min_probes': 1, 'skip_low': False, 'haploid_x_ref': False,
-         'female': True, 'segments': segments}
+         'female': True, 'segments': segments, 'build': None, 'ccols': None, 'scols': None, 'sextra': None}
     c.update(kw)
     return c
 
 
 def run(ck, scratch):
-    ck.rule = ('corpus (inputs of the repaired by_gene defect) first; exhaustive: every name sequence over {A,B,Antitarget} '
+    ck.rule = ('COMPLETE DataFrames (header, column order, row order, every cell) of do_genemetrics / squash_genes / do_breaks are '
+               'compared model-vs-code; by_gene of every table is also compared with the closed form of C16_by_gene_general; '
+               'bin-table column sets rotate (with / without probes, permuted), segment tables rotate (cns / call-output / no '
+               'weight / no probes / bare, extra NaN-able columns), genome build None / grch37 / grch38 with chrX bins laid '
+               'across the four PAR boundaries, sex given or guessed (samples with X / Y levels of a male or female on either '
+               'reference), summary function default / median / mean / max. '
+               'corpus (inputs of the repaired by_gene defect, the witnesses outside the precondition) first; exhaustive: every name sequence over {A,B,Antitarget} '
                'whose gene spans are disjoint x {default, shifted index} x {alone, as 2nd chromosome, followed by a 2nd '
                'chromosome} through by_gene (+ squash/genemetrics on the single-chromosome variant); random: tables of 1..5 '
                'chromosomes, 0..12 genes of 1..10 bins with Antitarget/-/./CGH/Background bins anywhere incl. inside genes, '
@@ -737,6 +1066,18 @@ def run(ck, scratch):
     check_by_gene(ck, cc, 'corpus')
     check_squash(ck, [dict(c, squash_antitarget=sa) for c in cc for sa in (None, True)], 'corpus')
     check_genemetrics(ck, [gm_case(c['bins'], c['index'], th=0.25, min_probes=mp) for c in cc for mp in (1, 3)], 'corpus')
+    cb = []
+    for c in cc:
+        if c['index'] != 'default':
+            continue
+        segs = []
+        for chrom, crows in chrom_blocks(c['bins']):
+            cut = crows[len(crows) // 2][1]
+            if crows[0][1] < cut:
+                segs.append((chrom, crows[0][1], cut, '-', 0.0, 1.0, 1.0, 1))
+            segs.append((chrom, cut, crows[-1][2], '-', 0.5, 1.0, 1.0, 1))
+        cb.extend({'bins': c['bins'], 'index': 'default', 'segments': segs, 'min_probes': mp} for mp in (1, 2))
+    check_breaks(ck, cb, 'corpus')
 
     # 2. exhaustive scope
     L = 7 if quick else 9
@@ -756,24 +1097,31 @@ def run(ck, scratch):
     bg, sq, gm, bk, gmap = [], [], [], [], []
     for i in range(n):
         th = rng.choice([0.2, 0.25, 0.5, 0.0, 1.0, 0.25, 0.2])
-        bins = gen_table(rng, th if th else 0.25)
+        hap = rng.random() < 0.5
+        build = rng.choice([None, None, None, 'grch37', 'grch38'])
+        guess = rng.random() < 0.2
+        sexy = (rng.choice(['m', 'f']), hap) if (guess or rng.random() < 0.15) else False
+        bins = gen_table(rng, th if th else 0.25, build=build, sexy=sexy)
         index = rng.choice(['default', 'shifted', 'filtered', 'reversed'])
         ign = rng.choice([None, None, None, ['-'], [], ['G0', '.'], ['-', '.', 'CGH', 'G1']])
         if bins:
             bg.append({'bins': bins, 'index': index, 'ignore': ign})
-            sq.append({'bins': bins, 'index': index, 'ignore': ign, 'squash_antitarget': rng.choice([None, False, True])})
+            sq.append({'bins': bins, 'index': index, 'ignore': ign, 'squash_antitarget': rng.choice([None, False, True]),
+                       'ccols': rng.choice(SQUASH_COLSETS), 'summary': rng.choice([None, None, None, 'median', 'mean', 'max'])})
         else:
             bg.append({'bins': bins, 'index': 'default', 'ignore': ign})
         if not bins:
             continue
         opts = dict(th=th, min_probes=rng.choice([0, 1, 1, 2, 3, 3, 5]), skip_low=rng.random() < 0.4,
-                    haploid_x_ref=rng.random() < 0.5, female=rng.random() < 0.5)
+                    haploid_x_ref=hap, female=None if guess else (rng.random() < 0.5), build=build,
+                    ccols=rng.choice(CNA_COLSETS))
         gm.append(gm_case(bins, index, **opts))
         if i % 9 == 0:
             gm.append(gm_case(bins, index, defaults=True, th=0.2, min_probes=3, skip_low=False,
-                              haploid_x_ref=opts['haploid_x_ref'], female=opts['female']))
+                              haploid_x_ref=opts['haploid_x_ref'], female=opts['female'], build=build, ccols=opts['ccols']))
         segs = gen_segments(rng, bins, th if th else 0.25)
-        gm.append(gm_case(bins, index, segments=segs, **opts))
+        scols, sextra = gen_seg_columns(rng, segs)
+        gm.append(gm_case(bins, index, segments=segs, scols=scols, sextra=sextra, **opts))
         bsegs = gen_break_segments(rng, bins)
         bk.append({'bins': bins, 'index': index, 'segments': bsegs, 'min_probes': rng.choice([1, 1, 1, 2, 3])})
         if i % 7 == 0:
@@ -786,23 +1134,29 @@ def run(ck, scratch):
     check_breaks(ck, bk, 'rand')
     check_gene_map(ck, gmap, 'rand')
 
-    # 4. edge stream: precondition broken on purpose, zero weights, min_probes 0 for breaks
+    # 4. edge stream: precondition broken on purpose (a gene recurring after another one, comma-joined names shared by two
+    # genes, interleaved genes, empty names), zero weights, min_probes 0 for breaks
     n = 150 if quick else 3000
     bg, sq, gm, bk, gmap = [], [], [], [], []
     for i in range(n):
-        bins = gen_table(rng, 0.25, edge=True, maxgenes=6)
+        build = rng.choice([None, None, 'grch38'])
+        bins = gen_table(rng, 0.25, edge=True, maxgenes=6, build=build)
         if not bins:
             continue
         if i % 6 == 0:      # zero weights
             bins = [b[:5] + (rng.choice([0.0, 0.0, b[5]]),) + b[6:] for b in bins]
         index = rng.choice(['default', 'shifted', 'filtered'])
         bg.append({'bins': bins, 'index': index, 'ignore': None})
-        sq.append({'bins': bins, 'index': index, 'ignore': None, 'squash_antitarget': rng.choice([False, True])})
+        sq.append({'bins': bins, 'index': index, 'ignore': None, 'squash_antitarget': rng.choice([False, True]),
+                   'ccols': rng.choice(SQUASH_COLSETS), 'summary': rng.choice([None, 'median'])})
         opts = dict(th=rng.choice([0.25, 0.0]), min_probes=rng.choice([0, 1, 2]), skip_low=rng.random() < 0.5,
-                    haploid_x_ref=rng.random() < 0.5, female=rng.random() < 0.5)
+                    haploid_x_ref=rng.random() < 0.5, female=rng.choice([True, False, False, None]), build=build,
+                    ccols=rng.choice(CNA_COLSETS))
         gm.append(gm_case(bins, index, **opts))
         if i % 6 != 0:
-            gm.append(gm_case(bins, index, segments=gen_segments(rng, bins, 0.25), **opts))
+            segs = gen_segments(rng, bins, 0.25)
+            scols, sextra = gen_seg_columns(rng, segs)
+            gm.append(gm_case(bins, index, segments=segs, scols=scols, sextra=sextra, **opts))
         bk.append({'bins': bins, 'index': index, 'segments': gen_break_segments(rng, bins), 'min_probes': rng.choice([0, 0, 1])})
         gmap.append({'bins': chrom_blocks(bins)[0][1]})
     check_by_gene(ck, bg, 'edge')
@@ -812,7 +1166,21 @@ def run(ck, scratch):
     check_gene_map(ck, gmap, 'edge')
 
 
-UNPROVED = []
+UNPROVED = [
+    'guessed sex (is_sample_female=None): C15\'s model of guess_xx is reused as is; the G statistic of Mood\'s median test is '
+    'an oracle value per contingency table (scipy chi2_contingency), the C16 theorems hold for every such function; a '
+    'guess whose combined score is within 1e-6 of the cut is counted float-ambiguous and not compared',
+    'squash_genes summary function (default biweight location): an oracle with the contract "within [min, max] of its '
+    'input" (C19_biloc_range; checked on every supplied point); C16_squash_rows holds for every function, '
+    'C16_squash_values_in_range for every function meeting the contract',
+    'float rounding: theorems are about exact rational arithmetic; a gene whose mean lies within 1e-7 of the threshold is '
+    'float-ambiguous unless every float operation is exact (dyadic inputs); values are compared at 1e-9',
+    'bin tables with further value columns (gc, rmask, spread) and missing (NaN) gene names / log2 are not modelled '
+    '(the generators do not emit them); the bin table carries depth and weight, optionally probes; the segment table '
+    'may lack depth / weight / probes and may carry any further NaN-able numeric columns',
+    'C16_genemetrics_full_segments assumes bins sorted and not nested within each chromosome (searchsorted range query, '
+    'C07); on other tables model and code are compared without a theorem',
+]
 
 
 def replay(ck, body):
